@@ -111,7 +111,8 @@ impl<'a> Judge<'a> {
                 last_is_english = true;
             }
         }
-        let typed_word = strip_zwnj(&word);
+        // "once punctuation and the non-joiners added for traditional joining are ignored"
+        let typed_word: String = strip_zwnj(&word).chars().filter(|c| !(c.is_ascii_punctuation() || *c == crate::bn::DANDA)).collect();
         let mut prev_d: Option<usize> = None;
         for (i, it) in items.iter().enumerate().skip(1) {
             if last_is_english && i + 1 == items.len() {
@@ -377,7 +378,10 @@ pub fn run(report: &Report, thorough: bool) -> Evidence {
         sizes.sort_by_key(|(k, n)| (*n, k.to_string()));
         let ntab = if thorough { 25 } else { 12 };
         let ws: Vec<&String> = sizes.iter().take(ntab).flat_map(|(k, _)| dict.tables[*k].iter()).collect();
-        let wraps: [(&str, &str); 5] = [("(", ")"), ("\"", "\""), ("", ":"), ("", "\u{0964}"), ("'", "")];
+        // wrappings (incl. two trailing marks) and, for words of >= 3 code points, one punctuation
+        // character inserted after the second code point (regex-special ones among them)
+        let wraps: [(&str, &str); 8] = [("(", ")"), ("\"", "\""), ("", ":"), ("", "\u{0964}"), ("'", ""), ("", "?!"), ("\"(", ")\u{0964}"), ("", ",,,")];
+        let inner: [char; 6] = ['?', '(', ')', '+', '^', '-'];
         par_for(
             ws.len(),
             8,
@@ -399,9 +403,19 @@ pub fn run(report: &Report, thorough: bool) -> Evidence {
             },
             |ctxs, idx| {
                 let word = ws[idx];
+                let mut texts: Vec<String> = wraps.iter().map(|(l, t)| format!("{}{}{}", l, word, t)).collect();
+                if word.chars().count() >= 3 {
+                    let cs: Vec<char> = word.chars().collect();
+                    for p in inner {
+                        let mut s: String = cs[..2].iter().collect();
+                        s.push(p);
+                        s.extend(cs[2..].iter());
+                        texts.push(s);
+                    }
+                }
                 for ctx in ctxs.iter_mut() {
-                    for (l, t) in wraps.iter() {
-                        let text = format!("{}{}{}", l, word, t);
+                    for text in texts.iter() {
+                        let text = text.clone();
                         let Some(evs) = inv.events(&text) else { continue };
                         restore(ctx, &FxState::idle());
                         let mut last = None;
